@@ -461,6 +461,48 @@ macro_rules! impl_pq {
                 crate::ops_iter::adapt_plain(self.into_sorted_iter(), elem_owned, comp, a, b)
             }
             fn iter_mut_each(&mut self, how: u8, k: usize, f: &mut dyn FnMut(&mut Key, &mut Prio)) {
+                // 8..15: references taken one at a time and written while the iterator is still alive
+                match how % 16 {
+                    8 | 9 | 10 => {
+                        let mut it = self.iter_mut();
+                        if let Some((a, b)) = it.nth(k) {
+                            f(a, b)
+                        }
+                        return;
+                    }
+                    11 | 15 => {
+                        let mut it = self.iter_mut();
+                        if let Some((a, b)) = it.find(|(a, _)| a.id as usize % (k + 1) == 0) {
+                            f(a, b)
+                        }
+                        return;
+                    }
+                    12 => {
+                        let mut it = self.iter_mut();
+                        if let Some((a, b)) = it.next() {
+                            f(a, b)
+                        }
+                        return;
+                    }
+                    13 => {
+                        let mut it = self.iter_mut();
+                        let x = it.nth(k);
+                        let y = it.next();
+                        for (a, b) in x.into_iter().chain(y) {
+                            f(a, b)
+                        }
+                        return;
+                    }
+                    14 => {
+                        let mut it = self.iter_mut();
+                        it.by_ref().take(k).for_each(|(a, b)| f(a, b));
+                        if let Some((a, b)) = it.next() {
+                            f(a, b)
+                        }
+                        return;
+                    }
+                    _ => {}
+                }
                 match how % 8 {
                     0 | 2 => self.iter_mut().for_each(|(a, b)| f(a, b)),
                     1 => self.iter_mut().fold((), |_, (a, b)| f(a, b)),
@@ -551,6 +593,68 @@ macro_rules! impl_dpq {
                 Some(crate::ops_iter::adapt_full(self.into_sorted_iter(), elem_owned, comp, a, b))
             }
             fn iter_mut_each(&mut self, how: u8, k: usize, f: &mut dyn FnMut(&mut Key, &mut Prio)) {
+                match how % 16 {
+                    8 => {
+                        let mut it = self.iter_mut();
+                        if let Some((a, b)) = it.nth(k) {
+                            f(a, b)
+                        }
+                        return;
+                    }
+                    9 => {
+                        let mut it = self.iter_mut();
+                        if let Some((a, b)) = it.nth_back(k) {
+                            f(a, b)
+                        }
+                        return;
+                    }
+                    10 => {
+                        let mut it = self.iter_mut().rev();
+                        if let Some((a, b)) = it.nth(k) {
+                            f(a, b)
+                        }
+                        return;
+                    }
+                    11 => {
+                        let mut it = self.iter_mut();
+                        if let Some((a, b)) = it.find(|(a, _)| a.id as usize % (k + 1) == 0) {
+                            f(a, b)
+                        }
+                        return;
+                    }
+                    15 => {
+                        let mut it = self.iter_mut();
+                        if let Some((a, b)) = it.rfind(|(a, _)| a.id as usize % (k + 1) == 0) {
+                            f(a, b)
+                        }
+                        return;
+                    }
+                    12 => {
+                        let mut it = self.iter_mut();
+                        if let Some((a, b)) = it.next_back() {
+                            f(a, b)
+                        }
+                        return;
+                    }
+                    13 => {
+                        let mut it = self.iter_mut();
+                        let x = it.nth(k);
+                        let y = it.nth_back(0);
+                        for (a, b) in x.into_iter().chain(y) {
+                            f(a, b)
+                        }
+                        return;
+                    }
+                    14 => {
+                        let mut it = self.iter_mut();
+                        it.by_ref().take(k).for_each(|(a, b)| f(a, b));
+                        if let Some((a, b)) = it.next_back() {
+                            f(a, b)
+                        }
+                        return;
+                    }
+                    _ => {}
+                }
                 match how % 8 {
                     0 => self.iter_mut().for_each(|(a, b)| f(a, b)),
                     2 => self.iter_mut().rev().for_each(|(a, b)| f(a, b)),
